@@ -18,7 +18,7 @@ TECHNIQUE = ('explicit-state BFS over operation histories replayed on the real o
 RULE = ('initial arrays: lengths {(2,),(1,2),(2,2),(3,1,2)} x constructors {nested, flat+lengths, copy=False} x dtypes '
         '{int64,float64}; alphabet: element / row / row-slice / (row,col-slice) / (slice,slice) / paired-list / mask assignment, '
         'append (rows | RaggedArray | single row), augmented arithmetic (rebinding), plus non-mutating operators checked in '
-        'every state; BFS depth 2 (T: 3); state key = (rows, dtype, representation fingerprint); non-trivial = state at depth>=1 '
+        'every state; BFS depth 3 (T: 4); state key = (rows, dtype, representation fingerprint); non-trivial = state at depth>=1 '
         'whose representation fingerprint differs from its initial array')
 ASSUMPTIONS = ['values written are representable in the array dtype (no truncation semantics tested)',
                'observer set: iteration, ra[i], ra[i,j] for every cell, flatten, _data vs rows, lengths, starts, size, shape, '
@@ -233,7 +233,7 @@ def invariant(A, rows, ctx, case):
 def explore_init(i, tier, ctx):
     lengths, how, dt = INITS[i]
     rows0 = rr.mk_rows(lengths, dt)
-    depth = 2 if tier == 'quick' else 3
+    depth = 3 if tier == 'quick' else 4
     fp0 = [None]
 
     def realize(hist):
